@@ -95,6 +95,22 @@ MUTANTS = [
     ("nonmult-convert-swaps", "C02", "pint/facets/nonmultiplicative/registry.py",
      "            return super()._convert(value, src, dst, inplace)\n", "            return super()._convert(value, dst, src, inplace)\n",
      r"NonMultiplicativeRegistry._convert.*(value_times_ratio|raises)"),
+    # ---- C14: membership-memo discipline of Group / System objects
+    ("group-add-groups-forgets-used-by", "C14", "pint/facets/group/objects.py",
+     "            grp._used_by.add(self.name)\n", "            pass\n", r"Group.add_groups.*used_by"),
+    ("group-add-units-drops-own-memo-only", "C14", "pint/facets/group/objects.py",
+     "            self._unit_names.add(unit_name)\n\n        self.invalidate_members()\n",
+     "            self._unit_names.add(unit_name)\n\n        self._computed_members = None\n", r"Group.add_units.*(users_dropped|systems_dropped)"),
+    ("group-invalidate-skips-systems", "C14", "pint/facets/group/objects.py",
+     "            system.invalidate_members()\n", "            pass\n", r"Group.invalidate_members.*(systems_dropped|loop1)"),
+    ("group-remove-units-keeps-memo", "C14", "pint/facets/group/objects.py",
+     "            self._unit_names.remove(unit_name)\n\n        self.invalidate_members()\n",
+     "            self._unit_names.remove(unit_name)\n", r"Group.remove_units.*memo_dropped"),
+    ("system-remove-groups-keeps-memo", "C14", "pint/facets/system/objects.py",
+     "        self._used_groups -= set(group_names)\n\n        self.invalidate_members()\n",
+     "        self._used_groups -= set(group_names)\n", r"System.remove_groups.*memo_dropped"),
+    ("system-add-groups-replaces-set", "C14", "pint/facets/system/objects.py",
+     "        self._used_groups |= set(group_names)\n", "        self._used_groups = set(group_names)\n", r"System.add_groups.*used_groups"),
 ]
 
 
